@@ -276,6 +276,122 @@ def run(chk, prog):
                    'validate_story does not run the expression check over GlobalVariable::initial_value: '
                    '`VAR x = -> nowhere` is accepted', vst.loc(0))
 
+    # ---------------- recursion over the input is bounded
+    RN = 'C06.recursion-over-the-input-is-bounded'
+    chk.rule(RN, 'The depth of the compiler\'s call stack is the nesting depth of its input. (a) Every call-graph cycle '
+             'among the functions that consume source text (modules parser, inline; calls through function items passed '
+             'as arguments included) contains a call of nesting::enter, whose failure is propagated; (b) the level a '
+             'choice / gather line asks for by repeated markers passes check_marker_level; (c) the emitter\'s weave '
+             'recursion (emit_nodes_with_continuation) enters nesting::enter_emit; (d) validate_story runs '
+             'validate_weave_length over the root, every flow and every stitch; (e) story_to_json_string returns a story '
+             'only after comparing nesting::json_depth of it with a limit. The AST walkers (consts, validator, emitter '
+             'pre-passes) recurse over a tree whose depth (a)-(d) bound.')
+    import re as _re
+    cfns = {p_: f_ for p_, f_ in prog.fns.items() if f_.crate == 'bladeink_compiler' and '::tests::' not in p_}
+    adj = {}
+    for p_, f_ in cfns.items():
+        r_ = prog.root_fn(f_).p
+        for bb, t in f_.calls():
+            h_ = prog.fns.get(callee(t))
+            tgt = []
+            if h_ is not None and h_.crate == 'bladeink_compiler':
+                tgt.append(prog.root_fn(h_).p)
+            for ta in t['f'].get('targs') or []:
+                for m in _re.findall(r'\{(bladeink_compiler::[A-Za-z0-9_:]+)\}', ta):
+                    if m in prog.fns:
+                        # the callee may call the function item it was given
+                        src_ = prog.root_fn(h_).p if h_ is not None else r_
+                        adj.setdefault(src_, set()).add(m)
+            for x in tgt:
+                adj.setdefault(r_, set()).add(x)
+    # iterative Tarjan
+    index, low, onst, stack, sccs, counter = {}, {}, set(), [], [], [0]
+    for root_ in sorted(adj):
+        if root_ in index:
+            continue
+        work_ = [(root_, iter(sorted(adj.get(root_, ()))))]
+        index[root_] = low[root_] = counter[0]
+        counter[0] += 1
+        stack.append(root_)
+        onst.add(root_)
+        while work_:
+            v, it = work_[-1]
+            adv = False
+            for w in it:
+                if w not in index:
+                    index[w] = low[w] = counter[0]
+                    counter[0] += 1
+                    stack.append(w)
+                    onst.add(w)
+                    work_.append((w, iter(sorted(adj.get(w, ())))))
+                    adv = True
+                    break
+                elif w in onst:
+                    low[v] = min(low[v], index[w])
+            if adv:
+                continue
+            work_.pop()
+            if work_:
+                low[work_[-1][0]] = min(low[work_[-1][0]], low[v])
+            if low[v] == index[v]:
+                comp = []
+                while True:
+                    w = stack.pop()
+                    onst.discard(w)
+                    comp.append(w)
+                    if w == v:
+                        break
+                if len(comp) > 1 or v in adj.get(v, ()):
+                    sccs.append(comp)
+
+    def calls_short(f_, names):
+        return any(callee_short(t) in names for g_ in prog.with_closures(f_) for _, t in g_.calls())
+    ntext = 0
+    for comp in sccs:
+        members = [prog.fns[x] for x in comp if x in prog.fns]
+        if not any('::parser::' in m.p or '::inline::' in m.p for m in members):
+            continue
+        ntext += 1
+        name = '+'.join(sorted(m.short for m in members))[:160]
+        guarded = [m for m in members if calls_short(m, ('nesting::enter',))]
+        # the guard's failure must leave the function: its result feeds a `?` / return
+        chk.decide(RN, chk.key(RN, 'cycle', name), bool(guarded),
+                   'passes nesting::enter in %s' % (guarded[0].short if guarded else ''),
+                   'the functions %s call each other without any depth bound: input that nests deep enough (a few '
+                   'thousand parentheses, braces or blocks) overflows the stack and aborts the process instead of being '
+                   'rejected with a compiler error' % name, members[0].loc(0))
+    chk.floor(RN, 'call-graph cycles among the text-consuming functions', ntext, 3)
+    pc, ps_ = prog.fn('choice::parse_choice'), prog.fn('parser::parse_statement')
+    for nm, f_ in (('choice::parse_choice', pc), ('parser::parse_statement', ps_)):
+        if chk.anchor(RN, nm, f_):
+            chk.decide(RN, chk.key(RN, 'marker-level', nm), calls_short(f_, ('nesting::check_marker_level',)),
+                       'the marker level is checked',
+                       '%s no longer passes the level asked for by repeated markers through check_marker_level: '
+                       '"* * * ..." a few thousand times overflows the emitter\'s stack' % nm, f_.loc(0))
+    enc = prog.fn('emitter::emit_nodes_with_continuation')
+    if chk.anchor(RN, 'emitter::emit_nodes_with_continuation', enc):
+        chk.decide(RN, chk.key(RN, 'emit-weave-recursion'), calls_short(enc, ('nesting::enter_emit', 'nesting::enter')),
+                   'enters the emit nesting guard', 'emit_nodes_with_continuation recurses once per group of choices of a '
+                   'weave without a depth bound', enc.loc(0))
+    vst2 = prog.fn('ValidationContext::validate_story')
+    if chk.anchor(RN, 'ValidationContext::validate_story', vst2):
+        nwl = sum(1 for g_ in prog.with_closures(vst2) for _, t in g_.calls()
+                  if callee_short(t) == 'ValidationContext::validate_weave_length')
+        chk.decide(RN, chk.key(RN, 'weave-length-checked'), nwl >= 3,
+                   'validate_weave_length runs over the root, the flows and the stitches (%d calls)' % nwl,
+                   'validate_story runs validate_weave_length at %d of the 3 places (root, flow, stitch): a weave of a '
+                   'few thousand choice groups there overflows the emitter\'s pre-passes' % nwl, vst2.loc(0))
+    sjs = prog.fn('emitter::story_to_json_string')
+    if chk.anchor(RN, 'emitter::story_to_json_string', sjs):
+        g_ = cfg(sjs)
+        jd = [bb for bb, t in sjs.calls() if callee_short(t) == 'nesting::json_depth']
+        ser = [bb for bb, t in sjs.calls() if callee_short(t).endswith('to_string') and 'serde_json' in callee(t)]
+        ok = bool(jd) and bool(ser) and all(any(g_.dominates(j, s_) for j in jd) for s_ in ser)
+        chk.decide(RN, chk.key(RN, 'returned-story-loads'), ok,
+                   'the depth of the story is measured before it is serialised',
+                   'story_to_json_string serialises the story without measuring its nesting depth first: a story deeper '
+                   'than the runtime\'s 128 levels is returned as compiled although it cannot be loaded', sjs.loc(0))
+
     # ---------------- list items
     RE = 'C06.list-items-resolved'
     chk.rule(RE, 'Where the emitter writes a list literal, every key it inserts into the "list" object is the qualified '
